@@ -1753,4 +1753,80 @@ func ruleC17OneLeadingSlash(c *Ctx) {
 			"the pointer is split at \"/\" after removing "+how+" instead of exactly its first character: an empty first token is lost, so \"#//$defs/A\" (member \"\" of the root, which is no subschema) resolves to \"/$defs/A\"")
 	}
 	c.R.Floor(rule, "splits of the pointer at \"/\"", n, 1)
+	// only the empty pointer denotes the whole document: a success exit that does not come after the split is taken
+	// under the test `ptr == ""` and nothing else ("/" has one, empty, token)
+	core.EachInstr(parse, func(i ssa.Instruction) {
+		ret, ok := i.(*ssa.Return)
+		if !ok || len(ret.Results) != 2 {
+			return
+		}
+		if k, isConst := ret.Results[1].(*ssa.Const); !isConst || !k.IsNil() {
+			return
+		}
+		afterSplit := false
+		core.EachInstr(parse, func(j ssa.Instruction) {
+			if call, ok := j.(*ssa.Call); ok && strings.HasPrefix(core.CalleeKey(&call.Call), "strings.Split") && call.Block().Dominates(ret.Block()) {
+				afterSplit = true
+			}
+		})
+		if afterSplit {
+			return
+		}
+		onlyEmpty := false
+		for _, g := range guardsLocal(ret) {
+			if x, k, equal, ok := eqConst(g); ok && equal && x == ssa.Value(parse.Params[0]) {
+				if sv, isStr := constString(k); isStr && sv == "" {
+					onlyEmpty = true
+				}
+			}
+		}
+		c.R.Check(onlyEmpty, rule, core.FuncName(parse)+":whole-document-exit", c.pos(ret), "the parser answers \"no tokens\" only for the empty pointer", "the parser answers \"no tokens\" (the whole document) on a path that is not guarded by `pointer == \"\"` alone: the pointer \"/\" has one empty token and names the member \"\" of the root, which is no subschema, but a reference \"#/\" then resolves to the root instead of failing")
+	})
+}
+
+func init() {
+	p := Properties["C17"]
+	p.Rules = append(p.Rules, Rule{"C17/index-rules-for-arrays-only", ruleC17IndexRulesForArrays})
+}
+
+// The rules for array indexes (no leading zero, "-" unsupported, a decimal number) apply to a token only where the
+// value walked is a list of schemas. A key of $defs or properties such as "007" or "01" is an ordinary key.
+func ruleC17IndexRulesForArrays(c *Ctx) {
+	const rule = "C17/index-rules-for-arrays-only"
+	n := 0
+	for _, fn := range c.Closure(rule, "RES").Sorted() {
+		var atoi *ssa.Call
+		var subject ssa.Value
+		core.EachInstr(fn, func(i ssa.Instruction) {
+			if call, ok := i.(*ssa.Call); ok {
+				switch core.CalleeKey(&call.Call) {
+				case "strconv.Atoi":
+					atoi = call
+				case "reflect.Value.Kind":
+					subject = call.Call.Args[0]
+				}
+			}
+		})
+		if atoi == nil || subject == nil {
+			continue
+		}
+		seg := atoi.Call.Args[0]
+		core.EachInstr(fn, func(i ssa.Instruction) {
+			var reads bool
+			switch x := i.(type) {
+			case *ssa.Index:
+				reads = x.X == seg || sharesSource(x.X, seg)
+			case *ssa.Call:
+				reads = x == atoi
+			}
+			if !reads {
+				return
+			}
+			n++
+			ks, _ := c.kindsAt(fn, subject, i)
+			c.R.Check(ks != 0 && ks.SubsetOf(Kinds(kArray, kSlice)), rule, fmt.Sprintf("%s:index-rule#%d", core.FuncName(fn), n), c.pos(i), "the token is read as an array index only where the value walked is an array or slice",
+				fmt.Sprintf("a token of the pointer is examined as an array index (its characters, or its value as a number) where the value walked can have kind %s: a key of a map of schemas that looks like a number with a leading zero (\"007\", \"01\") is refused although it names a subschema", ks))
+		})
+	}
+	c.R.Floor(rule, "readings of a pointer token as an array index", n, 2)
 }
